@@ -535,6 +535,22 @@ def handleSt (d : Drv) (line : String) : Drv × String :=
     match x0.toNat?, y0.toNat?, m0.toNat?, evs.mapM parse with
     | some x0, some y0, some m0, some l => (d, if consistentFrom (x0, y0, m0) l then "ok true" else "ok false")
     | _, _, _, _ => (d, "bad-op")
+  | "reqcur" :: w0 :: h0 :: toks =>
+    -- VncSpec/Requests.lean's checker on a history observed on the implementation: "d<w>x<h>" = DesktopSize announced,
+    -- "q<hex>" = bytes written by the application, "c" = commitUpdate
+    let ev (t : String) : Option Ev :=
+      if t == "c" then some (Ev.out (.commit []))
+      else if t.startsWith "d" then
+        match (t.drop 1).toString.splitOn "x" with
+        | [a, b] => match a.toNat?, b.toNat? with
+          | some a, some b => some (Ev.out (.desktop a b))
+          | _, _ => none
+        | _ => none
+      else if t.startsWith "q" then (bytesOfHex (t.drop 1).toString).map fun b => Ev.act (.write b)
+      else none
+    match w0.toNat?, h0.toNat?, toks.mapM ev with
+    | some w0, some h0, some l => (d, if requestsCurrent (w0, h0) l then "ok true" else "ok false")
+    | _, _, _ => (d, "bad-op")
   | "ordered" :: toks =>
     -- VncProofs/C08Sys.lean's checker `scriptOrdered` (re-stated in VncSpec/Order.lean) on a history observed on the implementation
     let acts : Option (List Act) := toks.mapM fun t =>
